@@ -58,14 +58,47 @@ _engine = None
 _unit_timeout = 120
 
 
-def _worker_init(pid, unit_timeout):
+def idle_cpus(sample_s=0.25):
+    """The CPUs of this process's affinity mask that are not already busy with something else (a worker is pinned to
+    one core, so a core that another process saturates would starve it)."""
+    def snap():
+        out = {}
+        try:
+            with open('/proc/stat') as f:
+                for line in f:
+                    if line.startswith('cpu') and line[3].isdigit():
+                        parts = line.split()
+                        vals = [int(x) for x in parts[1:9]]
+                        out[int(parts[0][3:])] = (sum(vals), vals[3] + vals[4])
+        except (OSError, ValueError, IndexError):
+            pass
+        return out
+    try:
+        allowed = sorted(os.sched_getaffinity(0))
+    except (AttributeError, OSError):
+        return []
+    a = snap()
+    time.sleep(sample_s)
+    b = snap()
+    free = []
+    for c in allowed:
+        if c in a and c in b and b[c][0] > a[c][0]:
+            busy = 1.0 - (b[c][1] - a[c][1]) / float(b[c][0] - a[c][0])
+            if busy < 0.5:
+                free.append(c)
+        else:
+            free.append(c)
+    return free if len(free) >= max(2, len(allowed) // 4) else allowed
+
+
+def _worker_init(pid, unit_timeout, cpus=None):
     global _engine, _unit_timeout
     _unit_timeout = unit_timeout
     # one core per worker: baton passing between the real threads of a simulated run is ~6x cheaper
     # when both ends of the hand-off share a core
     try:
         ident = multiprocessing.current_process()._identity
-        cpus = sorted(os.sched_getaffinity(0))
+        cpus = cpus or sorted(os.sched_getaffinity(0))
         if ident and cpus:
             os.sched_setaffinity(0, {cpus[(ident[0] - 1) % len(cpus)]})
     except (AttributeError, OSError):
@@ -198,6 +231,8 @@ def start_selftest(pid, tier, seed):
         env = dict(os.environ)
         env['PYTHONHASHSEED'] = hs
         env['VERIF_NO_REEXEC'] = '1'
+        env['VERIF_NS_SUFFIX'] = 's' + hs      # scratch names that cannot collide with those of the pool workers
+        env.pop('VERIF_C17_NS', None)
         procs.append(subprocess.Popen([PY, os.path.join(VERIF, 'check'), pid, '--selftest-digests',
                                        '--tier', tier, '--seed', str(seed)] + (['--reverse'] if hs != '0' else []),
                                       stdout=subprocess.PIPE, stderr=subprocess.PIPE, env=env))
@@ -278,7 +313,8 @@ def _main(args, pid):
     eng = load_engine(pid)
     log('seed=%d repo=%s python=%s hashseed=%s' % (args.seed, REPO, sys.version.split()[0],
                                                     os.environ.get('PYTHONHASHSEED')))
-    jobs = args.jobs or min(16, os.cpu_count() or 1)
+    cpus = idle_cpus()
+    jobs = args.jobs or min(16, len(cpus) or os.cpu_count() or 1)
     budget = args.budget or eng.BUDGET_S[args.tier]
     unit_timeout = getattr(eng, 'UNIT_TIMEOUT_S', 300)
 
@@ -305,7 +341,7 @@ def _main(args, pid):
     stopped_early = False
     try:
         with ProcessPoolExecutor(max_workers=jobs, mp_context=ctx, initializer=_worker_init,
-                                 initargs=(pid, unit_timeout)) as pool:
+                                 initargs=(pid, unit_timeout, cpus)) as pool:
             pending = {}
             it = iter(units)
             exhausted = False
